@@ -131,6 +131,10 @@ def common_shrinks(scn):
     if dr.get("epsilon") is not None:
         yield with_path(scn, ["drive", "epsilon"], None)
     # (4) simplify the device
+    if scn.get("device_history"):
+        s = copy.deepcopy(scn)
+        s.pop("device_history")
+        yield s
     dv = scn["device"]
     if dv.get("holes"):
         yield with_path(scn, ["device", "holes"], [])
